@@ -132,3 +132,14 @@ Example C17_example_run :
 Proof. cbn. repeat split. eexists. vm_compute. reflexivity. Qed.
 Example C17_zero_window_hyps : stamps_le (init 3 0 7) /\ ph (init 3 0 7) = Computing.
 Proof. split; [apply init_stamps_le; lia|reflexivity]. Qed.
+(** hypotheses of C17_spacing_after_last_change: a history with reconfigurations in the
+    Sleeping phase, then a stretch with three admissions (the first one is the pending offer) *)
+Example C17_dynamic_example :
+  let ls1 := [Compute 1000; TimerFire 1000; Handover 1000; Rec 1001; Compute 1001; TimerFire 1001; Handover 1040;
+              Rec 1040; Compute 1041; SetWindow 1050 300; SetMaxEvents 1060 3; SetMaxEvents 1070 1] in
+  let ls2 := [TimerFire 1101; Handover 1102; Rec 1102; Compute 1102; WaiterCancel 1200; TimerFire 1402;
+              Handover 1403; Rec 1404; Compute 1404; TimerFire 1704; Handover 1704] in
+  exists s s', run (init 2 100 1000) ls1 = Some s /\ run s ls2 = Some s' /\ stable ls2 = true /\
+    (0 < length (ring s))%nat /\ inflight s = 1%nat /\ mem s = [1040] /\ window s = 300 /\
+    handovers ls2 = [1102; 1403; 1704] /\ records ls2 = [1102; 1404].
+Proof. eexists. eexists. split; [vm_compute; reflexivity|]. split; [vm_compute; reflexivity|]. vm_compute. repeat split; lia. Qed.
